@@ -376,6 +376,7 @@ var words = []string{"a", "b", "c", "apple", "Banana", "cherry", "x y", "√©", "Ê
 	// date strings in several of the layouts the library recognises
 	"today", "Now", "NOW", "tomorrow", // NOT the exact word "now": only that one may read the clock
 	"2017-07-09", "March 3, 2021", "2020-02-29 12:00", "02 Jan 2006", "Mon, 02 Jan 2006 15:04:05 -0700",
+	"2017-07-09T10:40:00Z", "2017-07-09T10:40:00+02:00", "20170709T104000Z", "2017-01-09 10:40:00 -0700", "2017-07-09 10:40:00 UTC",
 	"abcdef", "seven 7", longWord, longMulti, "eight ch", "123456789", "ten chars.", "hello world", "twelve chars", "one two three"}
 var longWord = strings.Repeat("lorem ipsum dolor sit amet ", 9)
 var longMulti = strings.Repeat("Êó•Êú¨Ë™û„ÅÆ„ÉÜ„Ç≠„Çπ„Éà ", 12)
@@ -600,6 +601,23 @@ func GenEnv(r *Rng, mapLo, mapHi int) *Env {
 			sh.A = append(sh.A, inner)
 		}
 		add("shared", sh)
+	}
+	if r.Chance(0.25) {
+		// maps nested three deep (site.cfg.opts.k), as decoded front matter gives
+		leaf := func() *LV {
+			return &LV{T: "map", K: []string{pick(r, keyWords[:6]), "title"}, A: []*LV{genScalar(r), {T: "str", S: pick(r, words)}}}
+		}
+		mid := &LV{T: "map", K: []string{"opts", "name", "alt"}, A: []*LV{leaf(), {T: "str", S: pick(r, words)}, leaf()}}
+		add("site", &LV{T: "map", K: []string{"cfg", "n", "aux"}, A: []*LV{mid, {T: "int", I: int64(r.Range(0, 9))}, leaf()}})
+	}
+	if r.Chance(0.35) {
+		// a list of records of two different struct types that map the same property
+		// names to different fields
+		l := &LV{T: "arr"}
+		for i, n := 0, r.Range(2, 5); i < n; i++ {
+			l.A = append(l.A, &LV{T: "rec", S: pick(r, words), R: pick(r, []string{"a", "b"})})
+		}
+		add("recs2", l)
 	}
 	add("m", genMap(r, 1, mapLo, mapHi))
 	add("m2", genMap(r, 0, mapLo, mapHi))
